@@ -27,13 +27,13 @@ CHECKS = {
          "Tens of thousands (quick) / hundreds of thousands (thorough) of generated recipes in every overlap pattern with 0-8 required sets and lengths to 4096 are compared exactly (integer count) and to float32 precision (entropy).",
          "Trusts the verif hook VerifCount (buildCharacterList + n()) and math/big.", "4/C07"),
  "C08": ("exploration", "reference-formula monitor plus determinism monitor over 64 in-process constructions/permutations and 4 fresh child processes per input",
-         "Entropy() of generated wordlist recipes (lengths to 3000) is compared with the documented formula and must be bit-identical over repeated constructions, permutations, repetitions and processes; recipes sharing one *WordList with different separator functions are evaluated in both orders, also after an excursion of the retry knobs during which every separator recipe is refused.",
+         "Entropy() of generated wordlist recipes (lengths to 3000; lists holding the empty string beside capitalisable words) is compared with the documented formula and must be bit-identical over repeated constructions, permutations, repetitions and processes; recipes sharing one *WordList with different separator functions are evaluated in both orders, also after an excursion of the retry knobs during which every separator recipe is refused.",
          "Separator entropy taken as what the separator function declares (observed).", "4/C08"),
  "C10": ("exploration", "reference-normalisation monitor; kept words read out through Generate with index scripts; before/after snapshot of the caller's slice; 64 constructions per input",
          "Thousands of hostile inputs (twins, chains, digraphs, Georgian, long s, inner word boundaries, caseless, empty string, duplicates, inputs concatenating to the same bytes) x 64 constructions/permutations each, plus both shipped lists, compared with the reference normalisation; the caller's slice is overwritten afterwards and the list read out again (no aliasing).",
          "strings.Title as the title-casing; list order read out through the public API.", "4/C10"),
  "C11": ("exploration", "round-trip monitor MakeIndices -> Tokenize on generated and Tokenize-constructed token sequences vs the documented size rule",
-         "Tens of thousands of passwords from hostile character and wordlist recipes (non-ASCII, 254/255/256-character words, byte length > 255 with <= 255 characters) and sequences only Tokenize can construct are round-tripped and their index size checked.",
+         "Tens of thousands of passwords from hostile character and wordlist recipes (non-ASCII, 254/255/256-character words, byte length > 255 with <= 255 characters, passwords beyond 2^16 bytes, characters and tokens) and sequences only Tokenize can construct are round-tripped and their index size checked.",
          "Token length counted in characters.", "4/C11"),
  "C12": ("exploration", "total-function monitor: Tokenize on ~1M (quick) / 20M (thorough) hostile (string, index, entropy) triples vs a decoder specification; panics recovered and judged",
          "Every index length 0..12 in both parities, every kind byte, biased bodies, mutated valid indices, invalid UTF-8 and long strings; each result compared with the decoder specification; the same monitor under 8 concurrent callers.",
